@@ -312,6 +312,12 @@ def part_masks(st):
         out.append("".join("1" if j == i else "0" for j in range(len(sl))))
     if len(idx) > 1:
         out.append("".join("1" if j in idx else "0" for j in range(len(sl))))
+    # a POINTER to a mapped struct held in a plain field: nil in turn (a nested struct arrives zero / nil, nothing panics)
+    lv = dict(leaves(st))
+    for i, x in enumerate(sl):
+        m = lv.get(x)
+        if m is not None and m["type"][0] == "p" and is_struct_named(m["type"][1]):
+            out.append("".join("1" if j == i else "0" for j in range(len(sl))))
     # nil ELEMENTS of pointer slices: one position at a time (first / middle / last), then first+last - the result keeps its
     # length and every other element its index
     el = [i for i, x in enumerate(sl) if "#" in x]
@@ -981,7 +987,7 @@ def add_embed_tag(rng, spec, side=None, kind=None, namesake=0.6):
         walk2(st, 0, False)
         if not deeper:
             used = {d_["name"] for d_ in embed_decls(st)}
-            chain = [n for n in (("Extra", "Wide", "Far") if sd == "src" else ("ExtraD", "WideD", "FarD")) if n not in used][:fdepth + 1]
+            chain = [n for n in (("Outer", "Wide", "Far") if sd == "src" else ("OuterD", "WideD", "FarD")) if n not in used][:fdepth + 1]
             if len(chain) < fdepth + 1:
                 continue
             inner = ST(chain[-1], [])
